@@ -117,17 +117,61 @@ def _methods(cls):
     return out
 
 
+def _calls_with_defaults(fn, dotted_name):
+    """does `fn`, CALLED WITHOUT ARGUMENTS (as `as_dict` calls a getter), reach a call of `dotted_name`? Walks every
+    statement, also inside `with` / `try` / `for` / `while` / `if`; of an `if <param> is None` / `is not None` on a
+    parameter whose default is None (the get-or-set methods `nice(value=None)`, `ionice`, `cpu_affinity`) only the
+    branch taken with the default is followed."""
+    a = fn.args
+    pos = a.posonlyargs + a.args
+    none_params = {arg.arg for arg, d in zip(pos[len(pos) - len(a.defaults):], a.defaults)
+                   if isinstance(d, ast.Constant) and d.value is None}
+    none_params |= {arg.arg for arg, d in zip(a.kwonlyargs, a.kw_defaults)
+                    if isinstance(d, ast.Constant) and d.value is None}
+
+    def expr_calls(node):
+        return any(isinstance(n, ast.Call) and extract.dotted(n.func) == dotted_name for n in ast.walk(node))
+
+    def stmts(body):
+        return any(stmt(st) for st in body)
+
+    def stmt(st):
+        if isinstance(st, (ast.FunctionDef, ast.AsyncFunctionDef, ast.ClassDef, ast.Lambda)):
+            return False
+        if isinstance(st, ast.If):
+            t = st.test
+            if isinstance(t, ast.Compare) and isinstance(t.left, ast.Name) and t.left.id in none_params \
+                    and len(t.ops) == 1 and isinstance(t.comparators[0], ast.Constant) and t.comparators[0].value is None:
+                if isinstance(t.ops[0], ast.Is):
+                    return stmts(st.body)
+                if isinstance(t.ops[0], ast.IsNot):
+                    return stmts(st.orelse)
+            return expr_calls(t) or stmts(st.body) or stmts(st.orelse)
+        found = False
+        for field, value in ast.iter_fields(st):
+            if isinstance(value, list) and value and isinstance(value[0], ast.stmt):
+                found = found or stmts(value)
+            elif isinstance(value, list):
+                for v in value:
+                    if isinstance(v, ast.ExceptHandler):
+                        found = found or stmts(v.body)
+                    elif isinstance(v, ast.AST):
+                        found = found or expr_calls(v)
+            elif isinstance(value, ast.AST):
+                found = found or expr_calls(value)
+        return found
+    return stmts(fn.body)
+
+
 def _reuse_attrs(tree, valid):
+    """valid as_dict names whose Process method, called as `as_dict` calls it (no arguments), reaches a call of
+    `self._raise_if_pid_reused()` ANYWHERE in its body (first statement, inside `with` / `try` / `if`…): total on
+    purpose — a new shape gives a new VALUE, which breaks the obligation `cfg_reuse_attrs` instead of being overlooked"""
     cls = extract.find_class(tree, "Process")
     out = []
     for fn in _methods(cls):
-        if fn.name not in valid:
-            continue
-        for st in fn.body:
-            if isinstance(st, ast.Expr) and isinstance(st.value, ast.Call) \
-                    and extract.dotted(st.value.func) == "self._raise_if_pid_reused":
-                out.append(fn.name)
-                break
+        if fn.name in valid and _calls_with_defaults(fn, "self._raise_if_pid_reused"):
+            out.append(fn.name)
     return sorted(set(out))
 
 
@@ -214,7 +258,7 @@ def facts(snap, F):
     F.try_add("noAccessAttrs", "List String", lambda: extract.lean_list(_no_access(init), extract.lean_str),
               "names as_dict() answers from the Process object itself (no look at the process)")
     F.try_add("reuseAttrs", "List String", lambda: extract.lean_list(_reuse_attrs(init, valid()), extract.lean_str),
-              "valid as_dict names whose Process method calls self._raise_if_pid_reused() unconditionally")
+              "valid as_dict names whose Process method, called without arguments, reaches a call of self._raise_if_pid_reused()")
     F.try_add("popGuarded", "Bool", lambda: extract.lean_bool(_pop_guarded(init)),
               "process_iter's drain loop catches the KeyError of _pids_reused.pop() on a set emptied by another thread")
     F.try_add("goneRefused", "Bool", lambda: extract.lean_bool(_gone_refused(init)),
@@ -649,6 +693,12 @@ F_OVERLAP = "C04-overlap-identity"
 F_CLEAR = "C04-clear-while-suspended"
 F_PPID = "C04-reuse-check-skips-pid"
 F_L19 = "C04-flagged-pid-skipped"
+# The region of C04-reuse-check-skips-pid is the one RECORDED with the finding (attrs containing `ppid`, or attrs=[]
+# which contains it) — never the fact `reuseAttrs` of the tree being checked: a getter that gains
+# `_raise_if_pid_reused()` must not widen the tolerated region (audit item 3; obligation `cfg_reuse_attrs`).
+REGION_REUSE_ATTRS = ["ppid"]
+SIMPLE_ATTRS = set(PLAIN_ATTRS) | {"pid", "ppid"}
+CURRENT_REUSE = ["ppid"]        # fact of this run: only feeds the GENERATORS (so a changed fact gets a failing input)
 
 
 class Rows(list):
@@ -718,7 +768,8 @@ def run_histories(ctx, impl, hists):
     for h in hists:
         i += 1
         impl.reset()
-        impl.want_full(any(o["op"] == "iter" and o["attrs"] == [] for o in h))
+        impl.want_full(any(o["op"] == "iter" and o["attrs"] is not None
+                           and (o["attrs"] == [] or (set(o["attrs"]) & set(CURRENT_REUSE)) - SIMPLE_ATTRS) for o in h))
         impl.gen_attrs = [o["attrs"] for o in h if o["op"] == "iter"]
         cm, cs = Canon(), Canon()
         rows = Rows()
@@ -943,9 +994,9 @@ class HGen:
         if kind == "plain":
             return rng.sample(PLAIN_ATTRS, rng.randrange(1, 4)) + (["pid"] if rng.random() < 0.3 else [])
         if kind == "ppid":
-            return ["ppid"]
+            return [rng.choice(CURRENT_REUSE or ["ppid"])]
         if kind == "mixed":
-            return rng.sample(PLAIN_ATTRS, rng.randrange(1, 3)) + ["ppid"]
+            return rng.sample(PLAIN_ATTRS, rng.randrange(1, 3)) + [rng.choice(CURRENT_REUSE or ["ppid"])]
         if kind == "invalid":
             return rng.choice([["bogus"], ["name", "is_running"], ["pid", "kill"]])
         return ["name", "name", "pid", "status", "pid"]
@@ -1233,6 +1284,15 @@ def corpus():
             ("corpus:ppid", ppid), ("corpus:vanish", vanish), ("corpus:thread", thread)]
 
 
+def reuse_witness(name):
+    """iterate {1,5,9}; PID 5 is recycled; iterate with attrs=[name]"""
+    base = [spawn(1, 101), spawn(5, 105), spawn(9, 109)]
+
+    def full(g):
+        return [{"op": "next", "g": g, "mid": []} for _ in range(4)]
+    return base + [{"op": "iter", "attrs": None}] + full(0) + [ev_exit(5), spawn(5, 999), {"op": "iter", "attrs": [name]}] + full(1)
+
+
 def exhaustive_histories(maxlen):
     """every sequence over a small alphabet of macro-steps around one recycled PID"""
     counter = itertools.count(500)
@@ -1418,7 +1478,7 @@ def known_ids(ctx):
 def check_batch(ctx, impl, res, hists, tags, sample_idx=()):
     results, nl = run_histories(ctx, impl, hists)
     kids = known_ids(ctx)
-    ra = reuse_attr_names(ctx)
+    ra = REGION_REUSE_ATTRS
     for j, rows in enumerate(results):
         h = hists[j]
         tag = tags[j]
@@ -1598,9 +1658,16 @@ def correspond(ctx, res):
                     "overlap / table changes right after a listing / info dict / pid_exists True or out of range / "
                     "cache_clear / is_running False; distinct = distinct op sequences")
         hists, tags = [], []
+        CURRENT_REUSE[:] = reuse_attr_names(ctx) or ["ppid"]
         for tag, h in corpus():
             hists.append(h)
             tags.append(tag)
+        # a getter that gained `_raise_if_pid_reused()` (fact `reuseAttrs` ≠ the pinned ["ppid"]): the witness of the
+        # known finding with THAT name lies outside the recorded region, so it is a failing input, not a KNOWN-FINDING
+        for nm in sorted(set(CURRENT_REUSE) - set(REGION_REUSE_ATTRS)):
+            hists.append(reuse_witness(nm))
+            tags.append("corpus:reuse-check:" + nm)
+            res.count("reuse_fact_changed")
         for h in pid_exists_table():
             hists.append(h)
             tags.append("pid_exists_table")
@@ -1700,10 +1767,10 @@ def search(ctx, res, broken):
 
 def _first_spec_failure(ctx, impl, hist):
     results, _ = run_histories(ctx, impl, [hist])
-    for kind, step, fid, note in judge(results[0], reuse_attr_names(ctx), known_ids(ctx)):
+    for kind, step, fid, note in judge(results[0], REGION_REUSE_ATTRS, known_ids(ctx)):
         if kind == "spec":
             return step, results[0][step]
-    for step, note in whole_iteration_oracle(results[0], reuse_attr_names(ctx), valid_names(impl)):
+    for step, note in whole_iteration_oracle(results[0], REGION_REUSE_ATTRS, valid_names(impl)):
         return step, results[0][step]
     return None
 
